@@ -7,7 +7,7 @@ apply -> build dbg + rel -> run both simulators (same seeds and split as ./check
 on the patched build (must reproduce) and on the pristine build in /verif/sim/target (must be clean) -> revert.
 The summary for <name> goes to <outdir>/<name>.txt in the format of tools/seeded_all.sh.
 
-usage: lanes.py [--lanes 4] [--runs 1000000] [--threads 5] [--tier quick] [--out /tmp/lanes_out] name=patch.diff ...
+usage: lanes.py [--lanes 4] [--runs 1000000] [--threads 5] [--tier quick] [--seed 20] [--out /tmp/lanes_out] name=patch.diff ...
 The registered checks (MANIFEST.json) do not use this tool; it exists to evaluate seeded changes, own mutants and
 controls quickly. /verif/sim/target must hold binaries built from the pristine /repo (run ./setup.sh first).
 """
@@ -49,6 +49,9 @@ def build(d):
     return ok
 
 
+SEED = "20"
+
+
 def one(d, name, patch, runs, threads, tier, outdir):
     lines = []
     rep = d + "/replays"
@@ -68,7 +71,7 @@ def one(d, name, patch, runs, threads, tier, outdir):
     for i, prof in enumerate(("dbg", "rel")):
         exe = "%s/sim/target/t-%s/%s/sim" % (d, prof, prof)
         out = "%s/part.%s.json" % (d, prof)
-        cmd = [exe, "run", "--tier", tier, "--seed", "20", "--threads", str(threads), "--runs", str(runs), "--from", str(i * runs), "--out", out]
+        cmd = [exe, "run", "--tier", tier, "--seed", SEED, "--threads", str(threads), "--runs", str(runs), "--from", str(i * runs), "--out", out]
         p = subprocess.run(cmd, env=env, stdout=subprocess.PIPE, stderr=subprocess.STDOUT, text=True)
         rcs.append(p.returncode)
         for l in p.stdout.splitlines():
@@ -119,6 +122,8 @@ def main():
     threads = int(opt("--threads", "5"))
     tier = opt("--tier", "quick")
     outdir = opt("--out", "/tmp/lanes_out")
+    global SEED
+    SEED = opt("--seed", "20")
     os.makedirs(outdir, exist_ok=True)
     jobs = [x.split("=", 1) for x in a]
     lock = threading.Lock()
